@@ -55,6 +55,9 @@ CHECKS = {
  "C19": ("model_checking", "explicit-state exploration of the real interpreter, every program run five ways (none / recording / scribbling debugger, direct and through debug.NewDebugger), with a lifecycle automaton over the callback trace and snapshot-sequence comparison",
          "For every program of the bounded spaces: identical verdict and error text with and without debuggers, callback trace accepted by the lifecycle automaton, scribbling over every snapshot changes neither the trace nor the snapshot sequence, snapshot indices consistent, consecutive snapshots consistent with the reference effect of the instruction.",
          "Lifecycle grammar derived from debug.go's documentation and thread.execute; same reference as C05.", "DESIGN.md §4 C19"),
+ "C07": ("model_checking", "exhaustive exploration of Engine.Execute over all 65,536 flag words, a product of script pairs x transaction contexts x input indices x debuggers and all short byte strings, executed in isolated child processes with death/hang attribution and an allocation bound",
+         "Every execution of the bounded spaces must return nil or an error: panics are recovered per case, log.Fatal / out-of-memory / hangs are attributed to the exact case through a progress marker and reproduced twice in fresh processes, and a 32 MiB allocation bound catches count-driven allocations.",
+         "Child processes run under RLIMIT_AS 6 GiB with a 90 s stall watchdog; WithState is excluded (documented experimental).", "DESIGN.md §4 C07"),
 }
 
 PENDING_REASON = "check not built yet in this round (planned, see DESIGN.md §4); not claimed until its exhaustive check exists and is quiet on the unchanged tree"
